@@ -432,3 +432,16 @@ Proof. exact src_array_set_typed_fresh. Qed.
 Print Assumptions C19_src_intake_array_typed.
 Print Assumptions C19_src_intake_array_untyped.
 Print Assumptions C19_src_intake_array_typed_fresh.
+
+(* d[k] through a _DictStruct not bound immutable hands out the stored value, never the wrapper's body *)
+Theorem C19_src_dict_getitem :
+  forall (tb : CopyHeap.loc -> wbind) (ia : CopyHeap.loc -> pystr -> option pyval) (df : pystr -> option pyval)
+         (rec : CopyHeap.heap -> CopyHeap.child -> res (CopyHeap.heap * CopyHeap.child))
+         (fimm : bool) (ib : ibind) (nm : aval) (l : CopyHeap.loc) (h : CopyHeap.heap) (o : CopyHeap.obj)
+         (ps : list (CopyHeap.child * CopyHeap.child)) (kc : CopyHeap.child),
+    simm fimm ib = false -> CopyHeap.get h l = Some o -> CopyHeap.o_kind o = CopyHeap.KWDict ->
+    kid_pairs (CopyHeap.o_kids o) = Some ps ->
+    Src_DictStruct_getitem (env_of (fun l => Some (tb l)) ia df) rec (wview (AV (CopyHeap.CRef l)) fimm ib nm) (AV kc) h =
+    match dict_find ps kc with Some v => Ok (h, AV v) | None => Raise KeyError end.
+Proof. exact src_dict_getitem. Qed.
+Print Assumptions C19_src_dict_getitem.
